@@ -142,6 +142,11 @@ def str_method(eng, base, attr, node):
             return concretize(Sym(res, STR)) if res is not None else ''
         if attr == 'split' and len(args) >= 1 and not is_sym(args[0]):
             return SplitParts(base, args[0])
+        if attr == 'isdigit' and not args:
+            if getattr(base, 'src', None) is not None:
+                # str(n) of an integer: all digits iff n is not negative (a minus sign is no digit)
+                return Sym(base.src >= 0, BOOL)
+            return Sym(z3.And(z3.Length(s) >= 1, z3.InRe(s, z3.Star(z3.Range('0', '9')))), BOOL)
         if attr in ('isupper', 'islower') and not args:
             # single character: inside A-Z / a-z
             lo, hi = ('A', 'Z') if attr == 'isupper' else ('a', 'z')
